@@ -278,7 +278,111 @@ def run_once(sc, chooser):
             "errors": [repr(t.error) for t in s.threads.values() if t.error]}, s.steps
 
 
-RUNNERS = {"memlog": run_memlog, "filedest": run_filedest, "handover": run_handover, "once": run_once}
+# ---------------------------------------------------------------------------------------
+class _ThreadShim:
+    """What eliot.logwriter sees as the `threading` module: Thread objects are scheduler-controlled threads."""
+
+    def __init__(self, s):
+        self.s = s
+        self.n = 0
+        shim = self
+
+        class Thread(object):
+            def __init__(self, target=None, name=None, args=(), kwargs=None, daemon=None):
+                shim.n += 1
+                self._name = "W%d" % shim.n
+                self._target, self._args, self._kwargs = target, args, kwargs or {}
+
+            def start(self):
+                shim.s.spawn(self._name, lambda: self._target(*self._args, **self._kwargs))
+
+            def join(self, timeout=None):
+                shim.s.join(self._name)
+
+            def is_alive(self):
+                return shim.s.threads[self._name].status != "done"
+
+            @property
+            def name(self):
+                return self._name
+
+        self.Thread = Thread
+        self.Lock = lambda: S.CoopLock(s)
+        self.RLock = lambda: S.CoopLock(s)
+        self.current_thread = threading.current_thread
+        self.get_ident = threading.get_ident
+
+
+class _Pool:
+    def __init__(self, s):
+        self.s, self.n = s, 0
+        self.on_done = None
+
+    def callInThread(self, f, *a, **kw):
+        self.n += 1
+        self.s.spawn("J%d" % self.n, lambda: f(*a, **kw))
+
+
+class _Reactor:
+    def __init__(self, pool):
+        self.pool = pool
+
+    def getThreadPool(self):
+        return self.pool
+
+
+def run_writer(sc, chooser):
+    import eliot.logwriter as LW
+    s = S.Sched(("eliot/logwriter.py",))
+    LW.threading = _ThreadShim(s)
+    pool = _Pool(s)
+    fail = set(sc.get("fail", []))
+    cyc = {"n": 0}
+
+    def wrapped(msg):
+        s.yield_point(("wrapped", 0))
+        st = s.me()
+        s.event(e="write", op="", id=msg["id"], cycle=cyc["n"], raised=msg["id"] in fail)
+        if msg["id"] in fail:
+            raise RuntimeError("wrapped destination fails")
+
+    w = LW.ThreadedWriter(wrapped, _Reactor(pool))
+    w._queue = S.CoopQueue(s)
+
+    def producer(ids):
+        def body():
+            for i in ids:
+                s.event(e="inv", op="offer", id=i, cycle=0)
+                w(dict(base(i), message_type="m"))
+                s.event(e="res", op="offer", id=i, cycle=0)
+        return body
+
+    def manager():
+        for c in range(1, sc.get("cycles", 1) + 1):
+            cyc["n"] = c
+            s.event(e="inv", op="start", id=c, cycle=c)
+            w.startService()
+            s.event(e="res", op="start", id=c, cycle=c)
+            for i in sc.get("inline", {}).get(str(c), []):
+                s.event(e="inv", op="offer", id=i, cycle=0)
+                w(dict(base(i), message_type="m"))
+                s.event(e="res", op="offer", id=i, cycle=0)
+            s.event(e="inv", op="stop", id=c, cycle=c)
+            pool.on_done = lambda res, c=c: s.event(e="done", op="stop", id=c, cycle=c)
+            r = w.stopService()
+            s.event(e="res", op="stop", id=c, cycle=c)
+            # the application waits for stopService's result before it goes on
+            while not r.done:
+                s.block_on(("join", "J%d" % pool.n))
+
+    for name, ids in sorted(sc["threads"].items()):
+        s.spawn(name, producer(ids))
+    s.spawn("M", manager)
+    s.run(chooser)
+    return {"ev": s.log, "errors": [repr(t.error) for t in s.threads.values() if t.error]}, s.steps
+
+
+RUNNERS = {"writer": run_writer, "memlog": run_memlog, "filedest": run_filedest, "handover": run_handover, "once": run_once}
 
 
 def main():
